@@ -14,7 +14,7 @@ G5  every propagator's normal form equals the textbook discretisation of the
     two chained one-step propagators.
 Not decided: Gaussian-beam / Airy references, magnification round trip, orientation.
 """
-from ..common import get_index, nf, check_equal, same_value
+from ..common import get_index, nf, check_equal, same_value, purity_obligations
 from ..field import split_terms, NotLinear
 from ..fftalg import INVERSE_SHIFT
 from ..interp import Interp, has_unknown, unknown_atoms
@@ -198,6 +198,9 @@ def run(rep, tier, root=None):
         want = want.subst(lambda a: N2 if (isinstance(a, Fn) and a.name == "shape") else None)
         check_equal(rep, "G5.two-step", tag + " == oneStep(oneStep(U, d1, Dz1), d1a, Dz2)", v, want, f2.where(),
                     what="twoStepFresnel")
+    purity_obligations(rep, ix, [ix.func(MOD, n) for n in NPARAMS] + [ix.func("aotools.fouriertransform", n) for n in ("ft2", "ift2")],
+                       "G6.pure", "composing or comparing propagators on the same input field gives different results depending on "
+                       "which one ran first")
     rep.floor("two-step paths", n_two, 1)
 
 
